@@ -63,7 +63,11 @@ class Range:
         end = (self.next >= self.stop) if self.step >= 0 else (self.next <= self.stop)
         if end:
             return nothing()
-        return some((self.next, Range(self.next + self.step, self.stop, self.step)))
+        nxt = self.next + self.step
+        # `next + step` wraps around near +-2^63: the true successor is then beyond `stop`
+        if (nxt < self.next) if self.step >= 0 else (nxt > self.next):
+            nxt = self.stop
+        return some((self.next, Range(nxt, self.stop, self.step)))
 
 
 @guppy
